@@ -87,24 +87,40 @@ var (
 )
 
 // getNet returns the client/server pair for a read chunk size (created on first use, kept for the run).
-func getNet(cs int) *netEnv {
+func getNet(cs int) *netEnv { return getNetOpt(cs, false) }
+
+// getNetOpt: with buffered = true the connection gets flow-control windows larger than any
+// object of the harness, so that a whole response is buffered on the client side and the
+// goroutine feeding the decoder never waits for the network.
+func getNetOpt(cs int, buffered bool) *netEnv {
 	netMu.Lock()
 	defer netMu.Unlock()
-	if e, ok := netEnvs[cs]; ok {
+	mapKey := cs
+	if buffered {
+		mapKey = -cs
+	}
+	if e, ok := netEnvs[mapKey]; ok {
 		return e
+	}
+	var sopts []grpc.ServerOption
+	dopts := []grpc.DialOption{}
+	if buffered {
+		sopts = append(sopts, grpc.InitialWindowSize(16<<20), grpc.InitialConnWindowSize(16<<20))
+		dopts = append(dopts, grpc.WithInitialWindowSize(16<<20), grpc.WithInitialConnWindowSize(16<<20))
 	}
 	sb := &switchBackend{}
 	sbAC := &switchBackend{}
 	lis := bufconn.Listen(1 << 20)
-	srv := grpc.NewServer()
+	srv := grpc.NewServer(sopts...)
 	bytestream.RegisterByteStreamServer(srv, grpcservers.NewByteStreamServer(sb, cs, newPool()))
 	remoteexecution.RegisterActionCacheServer(srv, grpcservers.NewActionCacheServer(sbAC, 1<<20))
 	remoteexecution.RegisterContentAddressableStorageServer(srv, grpcservers.NewContentAddressableStorageServer(sb, 1<<20))
 	remoteexecution.RegisterCapabilitiesServer(srv, capsServer{})
 	go srv.Serve(lis)
-	conn, err := grpc.NewClient("passthrough:///bufnet",
+	dopts = append(dopts,
 		grpc.WithContextDialer(func(ctx context.Context, _ string) (net.Conn, error) { return lis.DialContext(ctx) }),
 		grpc.WithTransportCredentials(insecure.NewCredentials()))
+	conn, err := grpc.NewClient("passthrough:///bufnet", dopts...)
 	if err != nil {
 		panic(err)
 	}
@@ -115,7 +131,7 @@ func getNet(cs int) *netEnv {
 		acBack:  sbAC,
 		ac:      grpcclients.NewACBlobAccess(conn, 1<<20),
 	}
-	netEnvs[cs] = e
+	netEnvs[mapKey] = e
 	return e
 }
 
